@@ -302,10 +302,14 @@ EvalKind(c, k) == CASE c.k = "PCN" -> "lik" [] c.k = "MALA" /\ k = 2 -> "grad" [
 AbortStates == IF <<x, c_lp>> = sw THEN << [x |-> x, clp |-> c_lp] >>
                ELSE << [x |-> x, clp |-> c_lp], [x |-> sw[1], clp |-> sw[2]] >>
 
+\* the proposal whose evaluation fails is never decided and does not enter the state claim: it ranges over the lattice
+\* neighbours of x only (it must differ from x: a kernel that moves to it before evaluating it would otherwise go unnoticed)
+AbortMoves == {y \in Moves : (IF cfg.d = 1 THEN Abs(y[1] - x[1]) ELSE Abs(y[1] - x[1]) + Abs(y[2] - x[2])) = 1}
+
 \* the transition that would propose y aborts at its k-th evaluation (a following transition must fit: nT < MaxT)
 Abort(y, k, mode) ==
     /\ phase = "idle" /\ nT < MaxT(cfg) /\ nAbort < MaxAborts
-    /\ y \in Moves /\ y # x
+    /\ y \in AbortMoves
     /\ k \in 1..NEvals(cfg) /\ (cfg.k = "CW" => k = comp)
     /\ mode \in {"keep", "rollback"} /\ (mode = "rollback" => <<x, c_lp>> # sw)
     /\ LET half == Mutation = "AbortHalfUpdated"
